@@ -252,3 +252,48 @@ Proof.
   intros HN OF t a. pose proof (bridge_obj_free E dt (leaves_agree_non_numeric E dt HN) l OF t a) as B.
   unfold c04_accepts. unfold ok in B. exact B.
 Qed.
+
+(** ** the scalar leaves.  Int and ID: C04 reads the decimal text back ([DecimalText.int_lit_dec]).
+    Float is the one leaf left as a hypothesis ([float_leaves_agree]: C04's ParseFloat range test
+    [Literals.float_lit_ok] on the text m"e"k against C05's rounding [f64_of_decimal m k <> None]). *)
+From ApiFu Require Import Val.DecimalText.
+From ApiFu Require Vld.Literals.
+
+Definition float_leaves_agree (dt : bytes -> option bytes) : Prop :=
+  forall l, (forall v, l <> LVar v) -> l <> LNull ->
+    ValidatorModel.scalar_accepts Ast.SFloat (tr_lit l) = match scalar_literal dt KFloat l with Some _ => true | None => false end.
+
+Definition no_float (E : env) : bool :=
+  forallb (fun p : name * tdef => match snd p with TScalar KFloat => false | _ => true end) E.
+
+Lemma int32_dec z : Literals.int32_lit_ok (dec_of_Z z) = int32_ok z.
+Proof. unfold Literals.int32_lit_ok. rewrite int_lit_dec. reflexivity. Qed.
+Lemma int64_dec z : Literals.int64_lit_ok (dec_of_Z z) = int64_ok z.
+Proof. unfold Literals.int64_lit_ok. rewrite int_lit_dec. reflexivity. Qed.
+
+Lemma leaves_agree_bridgeable E dt : bridgeable E = true ->
+  (no_float E = true \/ float_leaves_agree dt) -> leaves_agree E dt.
+Proof.
+  intros HB HF n k l Hn NV NN. unfold bridgeable in HB. rewrite forallb_forall in HB.
+  pose proof (aget_In _ _ _ Hn) as Hin. pose proof (HB _ Hin) as B. simpl in B.
+  destruct k; try discriminate.
+  - (* Int *) destruct l; try reflexivity; try (exfalso; (apply NN; reflexivity) || (eapply NV; reflexivity)).
+    cbn [tr_lit tr_scalar ValidatorModel.scalar_accepts scalar_literal]. rewrite int32_dec. destruct (int32_ok z); reflexivity.
+  - (* Float *) destruct HF as [HF|HF].
+    + unfold no_float in HF. rewrite forallb_forall in HF. specialize (HF _ Hin). discriminate.
+    + apply HF; auto.
+  - destruct l; try reflexivity; exfalso; (apply NN; reflexivity) || (eapply NV; reflexivity).
+  - destruct l; try reflexivity; exfalso; (apply NN; reflexivity) || (eapply NV; reflexivity).
+  - (* ID *) destruct l; try reflexivity; try (exfalso; (apply NN; reflexivity) || (eapply NV; reflexivity)).
+    cbn [tr_lit tr_scalar ValidatorModel.scalar_accepts scalar_literal]. rewrite int64_dec. destruct (int64_ok z); reflexivity.
+  - destruct l; try reflexivity; exfalso; (apply NN; reflexivity) || (eapply NV; reflexivity).
+Qed.
+
+(** the bridge without [leaves_agree]: every literal (objects included), every type, every
+    bridgeable environment; Float is the only leaf still carried as a hypothesis *)
+Theorem bridge_bridgeable E dt : bridgeable E = true -> (no_float E = true \/ float_leaves_agree dt) ->
+  forall l t a, c04_accepts E l t a = validate_coercion E dt l t a.
+Proof.
+  intros HB HF l t a. pose proof (bridge_all E dt (leaves_agree_bridgeable E dt HB HF) l t a) as B.
+  unfold c04_accepts. unfold ok in B. exact B.
+Qed.
